@@ -337,6 +337,14 @@ func customSample(t reflect.Type, k int) (reflect.Value, bool) {
 	case reflect.TypeFor[kmip.KeyMaterial]():
 		return reflect.ValueOf(kmip.KeyMaterial{Bytes: &[]byte{7}}), true
 	case reflect.TypeFor[ttlv.Struct]():
+		if k%3 == 2 {
+			// vendor-defined content nests as deep as the vendor likes
+			v := ttlv.Value{Tag: 0x540002, Value: "deep"}
+			for d := 0; d < 40+k%7; d++ {
+				v = ttlv.Value{Tag: 0x540003 + d%2, Value: ttlv.Struct{v}}
+			}
+			return reflect.ValueOf(ttlv.Struct{v}), true
+		}
 		return reflect.ValueOf(ttlv.Struct{{Tag: 0x540002, Value: "ext"}}), true
 	case reflect.TypeFor[ttlv.Value]():
 		return reflect.ValueOf(ttlv.Value{Tag: 0x540003, Value: int32(5)}), true
@@ -391,6 +399,17 @@ func sampleBig(k int) *big.Int {
 		return pow(63) // 2^63: top bit set, positive
 	}
 	return big.NewInt(int64(1000 + k))
+}
+
+// vendorExt: vendor-defined content of a message extension; for odd versions nested 40 structures deep (the format sets no bound)
+func vendorExt(v int) ttlv.Struct {
+	x := ttlv.Value{Tag: 0x540002, Value: "x"}
+	if v%2 == 1 {
+		for d := 0; d < 40; d++ {
+			x = ttlv.Value{Tag: 0x540003 + d%2, Value: ttlv.Struct{x}}
+		}
+	}
+	return ttlv.Struct{x}
 }
 
 var objType = reflect.TypeFor[kmip.Object]()
@@ -867,7 +886,7 @@ func TestMessages(t *testing.T) {
 							hdr := build(reflect.TypeFor[kmip.RequestHeader](), mode, v, 3).Interface().(kmip.RequestHeader)
 							hdr.ProtocolVersion = ver(v)
 							hdr.BatchCount = 2
-							ext := &kmip.MessageExtension{VendorIdentification: "vendor", CriticalityIndicator: false, VendorExtension: ttlv.Struct{{Tag: 0x540002, Value: "x"}}}
+							ext := &kmip.MessageExtension{VendorIdentification: "vendor", CriticalityIndicator: false, VendorExtension: vendorExt(v)}
 							items := []kmip.RequestBatchItem{{Operation: e.Op, UniqueBatchItemID: []byte("a"), RequestPayload: p},
 								{Operation: e.Op, UniqueBatchItemID: []byte("b"), RequestPayload: p}}
 							if mode == full {
@@ -879,7 +898,7 @@ func TestMessages(t *testing.T) {
 							hdr := build(reflect.TypeFor[kmip.ResponseHeader](), mode, v, 3).Interface().(kmip.ResponseHeader)
 							hdr.ProtocolVersion = ver(v)
 							hdr.BatchCount = 2
-							ext := &kmip.MessageExtension{VendorIdentification: "vendor", CriticalityIndicator: true, VendorExtension: ttlv.Struct{{Tag: 0x540002, Value: "x"}}}
+							ext := &kmip.MessageExtension{VendorIdentification: "vendor", CriticalityIndicator: true, VendorExtension: vendorExt(v)}
 							items := []kmip.ResponseBatchItem{{Operation: e.Op, UniqueBatchItemID: []byte("a"), ResponsePayload: p},
 								{Operation: e.Op, UniqueBatchItemID: []byte("b"), ResultStatus: kmip.ResultStatusOperationFailed, ResultReason: kmip.ResultReasonItemNotFound, ResultMessage: "m"}}
 							if mode == full {
